@@ -232,3 +232,30 @@ def bond_order_after_edit(e0: bool, e3: bool, e5: bool, new: int, via_slice: boo
     if any(tuple(sorted(p)) not in cur for p in got):
         return False
     return _components(got, n) == _components(cur, n) and _assembles(got, n)
+
+
+ORDERS = [[(2, 1), (1, 0), (2, 3)], [(3, 2), (2, 1), (1, 0)], [(1, 2), (1, 0), (0, 3)], [(0, 1), (1, 2), (2, 3)]]
+
+
+def explicit_sorted_bonds(order: int, api: int, as_list: bool) -> bool:
+    """a caller-supplied bond list (valid assembly orders that are NOT monotone in the first index, walking a molecule from a high-numbered atom)
+    reaches the routine with its rows in the caller's order
+    pre: 0 <= order <= 3 and 0 <= api <= 1
+    post: __return__
+    """
+    t = _traj((True, False, False, True, False, True))
+    rec = _Rec()
+    _tr._geometry = rec
+    rows = ORDERS[int(order)]
+    sb = [list(r) for r in rows] if as_list else np.array(rows, dtype=np.int32)
+    try:
+        if api == 0:
+            t.make_molecules_whole(inplace=False, sorted_bonds=np.array(rows, dtype=np.int32) if not as_list else np.array(sb, dtype=np.int32))
+        else:
+            atoms = list(t.topology.atoms)
+            t.image_molecules(inplace=False, make_whole=True, anchor_molecules=[{atoms[0], atoms[1], atoms[2], atoms[3]}], other_molecules=[{atoms[4]}], sorted_bonds=np.array(rows, dtype=np.int32))
+    except Exception:
+        return False
+    if len(rec.calls) != 1 or rec.calls[0][3] is None:
+        return False
+    return [tuple(map(int, r)) for r in rec.calls[0][3]] == rows
